@@ -1,13 +1,21 @@
 -------------------------------- MODULE MC_KL --------------------------------
 (* instances: n qubits, K = 2^k code words with pseudo-random Gaussian-integer entries in -3..3 (a deterministic hash of
-   the instance seed), all single-qubit Pauli errors plus two weight-2 errors, integer coefficient tensors *)
+   the instance seed), all single-qubit Pauli errors plus two weight-2 errors, integer coefficient tensors.
+   An error is a SEQUENCE of Pauli words applied in list order (the library's op_list convention: the first factor acts first), i.e. the
+   operator word_m ... word_2 word_1; besides the one-word errors the instances carry products of words that overlap on a qubit and do
+   not commute (X then Z on one qubit; a two-qubit word then a one-qubit word; three factors), which are not Hermitian. *)
 EXTENDS KL, TLC
 CONSTANTS NSeeds, NMax
 VARIABLES cfg, obs
 H(s, a, b, c) == ModI(ModI(s * 7919 + a * 104729 + b * 1299709 + c * 15485863, 1000003), 7) - 3
 Words(n, k, s) == [i \in 1..2^k |-> [a \in 1..2^n |-> <<H(s, i, a, 1), H(s, i, a, 2)>>]]
-Errs(n) == [e \in 1..(3 * n) |-> [q \in 1..n |-> IF q = ((e - 1) \div 3) + 1 THEN ModI(e - 1, 3) + 1 ELSE 0]]
-           \o (IF n >= 2 THEN <<[q \in 1..n |-> IF q = 1 THEN 1 ELSE IF q = n THEN 2 ELSE 0], [q \in 1..n |-> IF q <= 2 THEN 3 ELSE 0]>> ELSE <<>>)
+W1(n, qq, l) == [q \in 1..n |-> IF q = qq THEN l ELSE 0]
+W2(n, q1, l1, q2, l2) == [q \in 1..n |-> IF q = q1 THEN l1 ELSE IF q = q2 THEN l2 ELSE 0]
+Errs(n) == [e \in 1..(3 * n) |-> <<W1(n, ((e - 1) \div 3) + 1, ModI(e - 1, 3) + 1)>>]
+           \o (IF n >= 2 THEN <<<<W2(n, 1, 1, n, 2)>>, <<W2(n, 1, 3, 2, 3)>>>> ELSE <<>>)
+           \o <<<<W1(n, 1, 1), W1(n, 1, 3)>>, <<W1(n, n, 2), W1(n, n, 1), W1(n, n, 3)>>>>                              \* X then Z;  Y then X then Z on one qubit
+           \o (IF n >= 2 THEN <<<<W2(n, 1, 1, 2, 3), W1(n, 1, 2)>>, <<W1(n, 1, 3), W2(n, 1, 1, 2, 1), W1(n, 2, 2)>>>> ELSE <<>>)
+ErrMat(err) == FoldLeft(LAMBDA acc, w : GMatMul(PauliMat(w), acc), PauliMat(err[1]), Tail(err))                         \* word_m ... word_1
 Coef(n, k, s) == [e \in 1..Len(Errs(n)) |-> [i \in 1..2^k |-> [j \in 1..2^k |-> <<H(s + 1, e, i, j), H(s + 2, e, j, i)>>]]]
 Configs == {[n |-> n, k |-> k, s |-> s] : n \in 1..NMax, k \in 0..1, s \in 1..NSeeds}
 \* The loss the variational code search minimises (numqi.qec.knill_laflamme_loss, kind L2) on the same inner products z[e][i][j]:
@@ -26,11 +34,11 @@ CoefL(ip) == LET K == Len(ip[1]) IN
 MkObs(n, k, s, q, mats, coef) == LET ip == [e \in 1..Len(mats) |-> IP(q, mats[e])] IN
    [q |-> q, errs |-> Errs(n), coef |-> coef, ip |-> ip, grad |-> GradKL(q, mats, coef), lossK2 |-> LossK2(ip), gradLK |-> GradKL(q, mats, CoefL(ip))]
 Init == /\ cfg \in Configs
-        /\ \E q \in {Words(cfg.n, cfg.k, cfg.s)} : \E mats \in {[e \in 1..Len(Errs(cfg.n)) |-> PauliMat(Errs(cfg.n)[e])]} : \E coef \in {Coef(cfg.n, cfg.k, cfg.s)} :
+        /\ \E q \in {Words(cfg.n, cfg.k, cfg.s)} : \E mats \in {[e \in 1..Len(Errs(cfg.n)) |-> ErrMat(Errs(cfg.n)[e])]} : \E coef \in {Coef(cfg.n, cfg.k, cfg.s)} :
            \E o \in {MkObs(cfg.n, cfg.k, cfg.s, q, mats, coef)} : obs = o
 Next == UNCHANGED <<cfg, obs>>
 Spec == Init /\ [][Next]_<<cfg, obs>>
 \* Hermitian errors: <q_i|E|q_j> = conj <q_j|E|q_i>
 LossOK == obs.lossK2 >= 0
-HermOK == \A e \in 1..Len(obs.ip) : \A i, j \in 1..Len(obs.q) : obs.ip[e][i][j] = GConj(obs.ip[e][j][i])
+HermOK == \A e \in {x \in 1..Len(obs.ip) : Len(obs.errs[x]) = 1} : \A i, j \in 1..Len(obs.q) : obs.ip[e][i][j] = GConj(obs.ip[e][j][i])
 =============================================================================
